@@ -2,6 +2,7 @@ package main
 
 import (
 	"flag"
+	"golang.org/x/tools/go/ssa"
 	"fmt"
 	"os"
 	"runtime"
@@ -44,6 +45,24 @@ func main() {
 		fmt.Printf("warm: loaded in %.1fs\n", time.Since(t0).Seconds())
 	case "gen":
 		cmdGen(os.Args[2:])
+	case "loops":
+		eng, err := LoadEngine(repoDir, loadPatterns())
+		if err != nil {
+			fmt.Fprintln(os.Stderr, err)
+			os.Exit(1)
+		}
+		eng.LoadContracts(verifDir + "/specs")
+		for n, fn := range eng.funcs {
+			if fn.Blocks == nil || !strings.Contains(n, os.Args[2]) {
+				continue
+			}
+			g := &gen{eng: eng, fn: fn, loops: map[*ssa.BasicBlock]*loopInfo{}, rpoIdx: map[*ssa.BasicBlock]int{}}
+			g.computeLoops()
+			for _, li := range g.loops {
+				h, o := eng.loopHeaderText(fn, li)
+				fmt.Printf("%s: loop %q #%d\n", n, h, o)
+			}
+		}
 	case "check":
 		os.Exit(cmdCheck(os.Args[2:]))
 	case "replay":
@@ -135,8 +154,9 @@ func cmdGen(args []string) {
 				fmt.Println(s.Raw)
 			}
 		}
-		if *dump != "" && strings.HasSuffix(s.Oblig.Name, *dump) {
+		if *dump != "" && s.Oblig.Name == *dump {
 			os.WriteFile("/var/tmp/hvc-dump.smt2", []byte(s.Query+"(check-sat)\n(get-model)\n"), 0644)
+			os.WriteFile("/var/tmp/hvc-dump0.smt2", []byte(buildQuery(s.FR, s.Oblig, 0)+"(check-sat)\n(get-model)\n"), 0644)
 			fmt.Println("query dumped to /var/tmp/hvc-dump.smt2")
 		}
 	}
